@@ -155,6 +155,31 @@ def r14_2(prog, rep):
     return n
 
 
+def r14_7(prog, rep):
+    """Literal members may be text.  Where the routine returns a raw input because it *is* a member (`"1"` for
+    Literal["1"]), the same text in a bytes carrier must be matched as text too — the loader would re-type it (1)."""
+    rows = C.handlers(prog, "unmarshal")
+    lit = [r for r in rows if r.pred_name == "isliteral" and r.routine]
+    if not lit:
+        rep.undecided("R14.7", "isliteral", "", "no Literal row in the unmarshal table")
+        return
+    c = lit[0].routine
+    f = C.call_of(prog, c)
+    DEC = ("call", ("ref", f"{C.SERDES}.decode"), (VAL,), ())
+    raw_hit = text_hit = False
+    for p, r in P.returns(P.paths_of(prog, f)):
+        for g, pol in p.guards():
+            if pol and g[0] == "cmp" and g[1] == "in":
+                if g[2] == VAL and r == VAL:
+                    raw_hit = True
+                if g[2] == DEC and r == DEC:
+                    text_hit = True
+    if not raw_hit:
+        rep.held("R14.7", f"isliteral->{c.name}", f.loc, "no raw member is returned as is (every carrier goes through the same decoding)", detail="text-members")
+    else:
+        rep.check(text_hit, "R14.7", f"isliteral->{c.name}", f.loc, "a text member is matched on the decoded text of every carrier before the loader may re-type it", "a raw str input that is a member is returned as is, but the same text in a bytes / bytearray / memoryview carrier is only matched after serdes.load re-typed it: unmarshal(Literal['1'], '1') == '1' while unmarshal(Literal['1'], b'1') is rejected", detail="text-members")
+
+
 def _annotation_names(prog, f, pname):
     for a in f.node.args.posonlyargs + f.node.args.args + f.node.args.kwonlyargs:
         if a.arg == pname and a.annotation is not None:
@@ -297,6 +322,8 @@ def run(prog: Program, rep: Report, tier: str):
     rep.rule("R14.3", "memoised decoders receive hashable carriers only", floor=1)
     rep.rule("R14.4", "strload fallback order and suppress coverage", floor=5)
     rep.rule("R14.5", "one encoding on all encode/decode sites", floor=2)
+    rep.rule("R14.7", "Literal text members are matched in every carrier", floor=1)
+    r14_7(prog, rep)
     rep.rule("R14.6", "a memoryview carrier is decoded from the bytes of the view itself (shared with R04.10)", floor=1)
     r14_1(prog, rep)
     r14_2(prog, rep)
